@@ -576,6 +576,14 @@ def b_iter(I, a, k):
 
 def b_next(I, a, k):
     it = a[0]
+    if isinstance(it, list):
+        # a generator expression is evaluated eagerly to the list of its values
+        if it:
+            return it[0]
+        if len(a) > 1:
+            return a[1]
+        I.safety("next", False, StopIteration)
+        raise_py(StopIteration)
     if not isinstance(it, _Iter):
         raise Unsupported("next() on non-iterator")
     if it.pos >= len(it.items):
